@@ -1,7 +1,7 @@
 /-
 C04  Undoing a move restores the position exactly.
 -/
-import OwlModel.Lemmas.Unmake
+import OwlModel.Lemmas.Shape
 
 namespace Owl.Props.C04
 open Owl Owl.Impl Owl.Lemmas
@@ -27,6 +27,14 @@ for every consistent board and every move meeting the per-kind precondition of `
 theorem undo_restores (b : Board) (mv : Move) (hb : Consistent b) (ok : MakeOk b mv) :
     unmakeMove (makeMove b mv).1 mv (makeMove b mv).2 = b :=
   unmake_make b mv hb ok
+
+/-- the same for every position accepted by the validation gate and every well-formed semilegal move
+(including those that leave the mover's king attacked) -/
+theorem undo_restores_semilegal (raw : RawBoard) (b : Board) (mv : Move) (hv : validate raw = .ok b)
+    (hwf : mv.isWellFormed = true) (hsl : isSemilegal b mv = true) :
+    unmakeMove (makeMove b mv).1 mv (makeMove b mv).2 = b := by
+  have hs := validate_shape raw b hv
+  exact unmake_make b mv hs.cons (makeOk_of_semilegal b mv hs hwf hsl)
 
 /-- the null move is always undoable -/
 theorem undo_null (b : Board) (hb : Consistent b) :
